@@ -145,6 +145,62 @@ cidr_merge, the preludes Model/SrcPreludeSRCE.v / SrcPreludeMerge.v / SrcPrelude
   (None or text) may only be passed on.
 Not translated: iter_unique_ips (nested `for` with `yield`, and no hand model function), the abstract BaseIP.key / sort_key
 (`return NotImplemented`: no model counterpart), IPAddress.__oct__ (no model), the alias __bool__ = __nonzero__.
+SRCC (units SRCC_UNITS: netaddr/strategy/ipv4.py -> pysrc_ipv4_gen.v, ipv6.py -> pysrc_ipv6_gen.v, netaddr/fbsocket.py ->
+pysrc_fbsocket_gen.v, and a second unit over netaddr/strategy/__init__.py -> pysrc_strategy_bits_gen.v; all of it in the two blocks
+marked SRCC, which wrap the methods above and leave them untouched for every other unit).  Added readings, for these units only:
+* a module-level name bound exactly once, at top level, by `name = <int constant expression>` or `name = '<text>'` is a generated
+  constant src_<prefix><name> holding its VALUE (width / version / max_int of ipv4.py / ipv6.py: the constants of pysrc_gen.v);
+  `globals()['name']` is that constant even where a parameter shadows the name; `if x is None: x = e` for a parameter declared
+  optint / optstr = py_opt_default x e.  A call of a translated function may omit trailing parameters (the callee's constant
+  defaults are filled in) and hand an int / text to an optint / optstr parameter (Some ..).  A function listed by another unit over
+  the same file (or imported from such a file) is found in whichever unit lists it.
+* packed byte strings (`bytes`) are lists of byte values: struct.pack / unpack with a LITERAL format of unsigned big-endian (or
+  one-byte) fields = py_struct_pack / py_struct_unpack <field sizes> (Codec.struct_pack / struct_unpack; `*l` hands over a list);
+  `t[k]` with a literal k >= 0 on a list = py_seq_item (IndexError), `l[e]` = py_list_item (Python's negative index rule);
+  `return (a, b, c, d)` of ints = the list [a; b; c; d] (callers read the result as a word sequence).
+* text: '' and other literals, `a + b`, `s * n`, `a or b`, `a in b` (substring), `s[lo:hi]` / `l[lo:hi]` with any int bounds
+  (py_str_slice / py_slice: Python's clamping), `'<fmt>' % e` with conversions %d %x %.4x %s (fmt_d, fmt_x, py_fmt_x4; for a
+  sequence-valued e the length is tested: TypeError), `sep.join(l)`, `s.split('<literal>')`, `list(s)`, `int(s)` / `int(s, 16)`
+  (py_int_base_o: ValueError), `[e for x in xs]` = map / py_map_o (e may raise; left to right), `l.reverse()` / `l.extend(m)` /
+  `l.insert(0, x)` as rebinding of l, the truth value of an int / of text, `x = E('..')` for an exception class E followed later
+  by `raise x` (only the class is kept), a `for` target that the body assigns again (renamed: `for x__item in ..: x = x__item`),
+  BYTES_TO_BITS = the table regenerated into Gen/codec_gen.v (UNIT_TABLES), a `while` loop's fuel from FUEL as before.
+* the back-end switch.  ipv4.py / ipv6.py bind `_inet_aton`, `_inet_pton`, `_inet_ntop` (and AF_INET / AF_INET6) at import time, by
+  imports that sit under `if _sys.platform ..` / `try .. except`: from `socket` / `_socket` on the platform path, from
+  netaddr.fbsocket on the fallback path.  The translator checks that EVERY binding of such a name in the module is an import of
+  the same function from one of these modules (SRCC_SOCKET, srcc_import_only) and reads a call by function and family:
+  `_inet_aton(s)` = py_inet_aton s, `_inet_pton(AF_INET, s)` = py_inet_pton4 be s, `_inet_pton(AF_INET6, s)` = py_inet_pton6 be s,
+  `_inet_ntop(AF_INET6, p)` = py_inet_ntop6 be p (Model/SrcPreludeText.v: Platform = the named oracles Std4 / Std6 of
+  Model/IpText.v, Fallback = the hand model of Model/FbSocket.v, as in Model/AddrText.v; inet_aton is the platform function on
+  both paths).  Which path is taken is NOT decided by the translator: a definition that makes such a call (or calls one that does)
+  takes the back-end as its first parameter `(be : py_backend)`, exactly like the hand model.  A socket call made as a
+  statement is evaluated for its exception only.  INET_PTON / ZEROFILL are read from netaddr/core.py (`X = NAME = <int>`).
+* try forms (outside loops): `try: body / except Exception: H` and the bare `except:` catch every Python exception class of
+  the model but let the modelling devices OutOfFuel / Unsupported through: H = `raise E(..)` with a body that returns on every
+  path -> py_except_all E (body) is the function's result; H = `raise E(..)` with a body that only assigns -> do <assigned> <-
+  py_except_all E (body); H = `return <literal>` / assignments of literals to names bound before -> py_except_value <H's values>
+  (body) (a name the body assigns must not be read afterwards unless H assigns it too).  `try: .. / except E1: raise E2` may now
+  contain loops (no return / break / continue in it).
+* further: `a and b` / `a or b` whose second operand can raise -> `if a then <b> else Ok false` (resp. true) in outcome;
+  `a, b = <list>` -> ValueError unless the list has that many items; `x = g(l.pop())` -> the pop first (`l__popped`);
+  `'::' in s` / `s.split('::')` = the hand models py_contains_dc / py_split_dc of Model/IpText.v (validated against CPython by
+  the c01_split_dc command), `'<one char>' in s` = contains_char, other `a in b` on text = the substring test py_str_in;
+  '<ASCII literal>'.encode() = its byte values, `b * n` on bytes, `_bytes_join(l)` = concat, `_is_str(x)` decided by the type
+  (also for bytes), `isinstance(<text>, _str_type)` true (compat binds _str_type = str); a comprehension variable that is bound
+  elsewhere in the function is renamed inside the comprehension (its own scope in Python 3), `for` targets that several loops
+  share are renamed (`x__item`, `x__item2`, ..); `[]` is written `@nil <type>` once its element type is known.
+* an IPv6 dialect class (parameter declared `optcls6`, or the class name as an argument) is the pair (word_fmt, compact) of its
+  class attributes, read through the bases into a generated constant; `d.word_fmt % n` = py_format1 (the two formats of the
+  dialect classes, anything else Unsupported).
+* a local that is assigned None somewhere, something else somewhere and compared with None somewhere holds None or an int
+  (option Z): `x = None` / `x = e` = None / Some e, `x is None`, `None + int` = TypeError, a slice bound of that kind is Python's
+  missing bound; tuple displays of Coq values; `l.sort(key=lambda x: e)` = py_sort_asc (stable insertion sort) or, for a
+  None-or-int key, py_sort_optkey (TypeError as soon as two items are compared with a None key).
+* bytes_to_bits: `for x in range(..)` whose variable the body reads iterates over list(range(..)) = py_range a b c (literal step),
+  `_range(..)` likewise (compat: list(range(..))); `n * [None]` = a list of n None-or-text slots, `l[i] = e` on it = py_list_set
+  (IndexError), which REBINDS l (assigned_names counts item assignment); `''.join(l)` on it = py_join_opt (TypeError on None).
+Trusted additionally for SRCC: the tables SRCC_UNITS SRCC_SOCKET SRCC_SOCKET_MODULES SRCC_SHARED_CONSTS SRCC_TABLE_TERM, the
+declared parameter types, Model/SrcPreludeText.v, and the reading of compat._str_type / _is_str / _bytes_join / _range above.
 """
 import ast
 import os
@@ -368,6 +424,55 @@ OPERAND = (("OAddr", ("ver", "v")), ("ONet", ("ver", "v", "p")), ("ORng", ("ver"
 KINDCLASS = {"OAddr": "IPAddress", "ONet": "IPNetwork", "ORng": "IPRange"}
 MUTATORS = ("append", "pop")
 PURE_METHODS = ("subnet", "union")      # x.subnet(..) (IPNetwork: a generator over new objects), s.union(t) (a new set): x, s unchanged
+
+# ---- SRCC: netaddr/fbsocket.py, netaddr/strategy/ipv4.py, ipv6.py and int_to_bits / bytes_to_bits of netaddr/strategy/__init__.py ----
+# (all SRCC code lives in this block and in the block `SRCC: methods` at the end of the file; see the docstring paragraph SRCC)
+SRCC_REQ = " Base.PyStr Model.SrcPreludeStr Model.SrcPreludeText"
+SRCC_WORDFNS = {"words": "list int", "int_val": "int", "bits": "str", "bin_val": "str", "packed_int": "bytes"}
+SRCC_UNITS = [
+    # a second unit over netaddr/strategy/__init__.py (everything it does not list is the first one's): BYTES_TO_BITS is the table
+    # regenerated by harness/gen/codec.py (Gen/codec_gen.v gen_bytes_to_bits = SrcPreludeText.py_BYTES_TO_BITS)
+    ("netaddr/strategy/__init__.py", "pysrc_strategy_bits_gen.v", "strategy_", SRCC_REQ,
+     [(None, "int_to_bits", {"int_val": "int", "word_size": "int", "num_words": "int", "word_sep": "str"}), (None, "bytes_to_bits", {})]),
+    ("netaddr/fbsocket.py", "pysrc_fbsocket_gen.v", "fbsocket_", SRCC_REQ,
+     [(None, f, {"packed_ip": "bytes", "tokens": "list str", "af": "int", "ip_string": "str", "token": "str"}) for f in (
+         "inet_ntoa", "_is_hextet", "_inet_pton_af_inet", "_compact_ipv6_tokens", "inet_ntop", "inet_pton")]),
+    ("netaddr/strategy/ipv4.py", "pysrc_ipv4_gen.v", "ipv4_", SRCC_REQ + " Gen.pysrc_gen",
+     [(None, f, dict(SRCC_WORDFNS, word_sep="optstr")) for f in (
+         "valid_words", "int_to_words", "words_to_int", "valid_bits", "bits_to_int", "int_to_bits", "valid_bin", "int_to_bin",
+         "bin_to_int", "int_to_packed", "packed_to_int", "int_to_arpa")]),
+    ("netaddr/strategy/ipv6.py", "pysrc_ipv6_gen.v", "ipv6_", SRCC_REQ + " Gen.pysrc_gen",
+     [(None, f, dict(SRCC_WORDFNS, word_sep="optstr", num_words="optint", word_size="optint")) for f in (
+         "valid_words", "int_to_words", "words_to_int", "valid_bits", "bits_to_int", "int_to_bits", "valid_bin", "int_to_bin",
+         "bin_to_int", "int_to_packed", "packed_to_int")]),
+]
+SRCC_TEXTFNS = {"addr": "str", "flags": "int", "int_val": "int"}
+SRCC_UNITS[2][4].extend([(None, "valid_str", SRCC_TEXTFNS), (None, "str_to_int", SRCC_TEXTFNS),
+                         (None, "int_to_str", dict(SRCC_TEXTFNS, dialect="unit")), (None, "expand_partial_address", SRCC_TEXTFNS)])
+SRCC_UNITS[3][4].extend([(None, "valid_str", SRCC_TEXTFNS), (None, "str_to_int", SRCC_TEXTFNS),
+                         (None, "int_to_str", dict(SRCC_TEXTFNS, dialect="optcls6")), (None, "int_to_arpa", SRCC_TEXTFNS)])
+# the socket functions that ipv4.py / ipv6.py bind at import time, from `socket` on the platform path and from netaddr.fbsocket on
+# the fallback path: module-level name -> (real name, {address family name or None: (prelude symbol, takes the back-end?)})
+SRCC_SOCKET = {"_inet_aton": ("inet_aton", {None: ("py_inet_aton", False)}),
+               "_inet_pton": ("inet_pton", {"AF_INET": ("py_inet_pton4", True), "AF_INET6": ("py_inet_pton6", True)}),
+               "_inet_ntop": ("inet_ntop", {"AF_INET6": ("py_inet_ntop6", True)})}
+SRCC_SOCKET_MODULES = ("socket", "_socket", "netaddr.fbsocket")
+COMPAT["_str_type"] = ("str", "basestring")
+UNITS += SRCC_UNITS
+FILES = FILES + tuple(u[1] for u in SRCC_UNITS)
+SRCC_OUT = tuple(u[1] for u in SRCC_UNITS)
+UNIT_TABLES["pysrc_strategy_bits_gen.v"] = {"BYTES_TO_BITS": "list str"}
+SRCC_TABLE_TERM = {"BYTES_TO_BITS": "py_BYTES_TO_BITS"}      # Coq name of a table of UNIT_TABLES where it differs from the Python name
+# module constants that harness/gen/pysrc.py constants() already regenerates into Gen/pysrc_gen.v
+SRCC_SHARED_CONSTS = {("ipv4_", "width"), ("ipv4_", "version"), ("ipv4_", "max_int"), ("ipv6_", "width"), ("ipv6_", "version"), ("ipv6_", "max_int")}
+# functions that return a tuple of ints where their callers (and the model) see a word sequence: the tuple is the list
+FUEL[(None, "int_to_bits", 2)] = ("word_size", 2)        # Codec.word_bytes_loop runs with Z.to_nat word_size + 1 and tests `word` first
+COQTY.update({"bytes": "(list Z)", "optstr": "(option string)", "cls6": "(string * bool)", "optcls6": "(option (string * bool))"})
+RESERVED |= set("py_struct_pack py_struct_unpack py_seq_item py_list_item py_opt_default py_map_o py_clamp py_slice py_str_slice "
+                "py_str_or py_str_mul py_bytes_mul py_encode py_bytes_join py_str_in py_list_of_str py_split py_int_base_o py_fmt_x4 "
+                "py_insert0 py_except_all py_except_value join split fmt_d fmt_x chars length concat firstn skipn nth_error "
+                "py_BYTES_TO_BITS py_backend be py_inet_aton py_inet_pton4 py_inet_pton6 py_inet_ntop6 py_format1 py_split_dc py_contains_dc "
+                "contains_char py_sort_asc py_sort_optkey py_ins_asc py_range py_list_set py_join_opt".split())
 
 
 class Untranslatable(Exception):
@@ -2984,4 +3089,1213 @@ def generate():
             "\n".join(consts) + "\n" if consts else "") + "\n".join(t.done[k].body_text for k in t.order) + ("\n" + fails if fails else "")
         text.encode("ascii")
         out[ofn] = text
+    return out
+
+
+# ==== SRCC: methods ==================================================================================================================
+# Everything below serves the units of SRCC_UNITS only (`self.tr.out in SRCC_OUT`); for every other unit the wrapped methods
+# behave exactly as before (their generated text is byte-identical).  A hook returns None for a form it does not read, and the
+# original method (which fails closed) takes over.
+BY_MODULE_ALL = {}          # dotted module name -> every translator made for its file, in UNITS order
+
+
+def srcc_on(fn):
+    return fn.tr.out in SRCC_OUT
+
+
+def srcc_modname(fn):
+    return re.sub(r"(/__init__)?\.py$", "", fn).replace("/", ".")
+
+
+_translator_init0 = Translator.__init__
+
+
+def _srcc_translator_init(self, fn=IPFILE, out=None, prefix="", specs=None, parent=None):
+    _translator_init0(self, fn, out, prefix, specs, parent)
+    BY_MODULE_ALL.setdefault(srcc_modname(fn), []).append(self)
+
+
+Translator.__init__ = _srcc_translator_init
+_owner_of0 = Translator.owner_of
+
+
+def _srcc_owner_of(self, name):
+    """as before; in addition a module-level function of a file that several units share (or that is imported from such a file)
+    is found in whichever of those units lists it"""
+    r = _owner_of0(self, name)
+    if r is not None:
+        return r
+    imp = self.mod.imports.get(name)
+    module, _, real = imp.rpartition(".") if imp else (srcc_modname(self.fn), "", name)
+    if not imp and self.mod.toplevel(name) and not any(isinstance(n, ast.FunctionDef) and n.name == name for n in self.mod.tree.body):
+        return None
+    for t in BY_MODULE_ALL.get(module, ()):
+        if t is not self and any(k[0] is None and k[1] == real for k in t.specs) and not t.mod.imports.get(real):
+            return t, real
+    return None
+
+
+Translator.owner_of = _srcc_owner_of
+_generate0 = generate
+
+
+def generate():
+    BY_MODULE_ALL.clear()
+    return _generate0()
+
+
+_is_value0 = is_value
+
+
+def is_value(t):
+    return t in ("bytes", "optstr", "cls6", "optcls6") or _is_value0(t)
+
+
+def srcc_struct_sizes(node):
+    """field sizes (bytes) of a literal struct format of unsigned big-endian fields: '>I' '>4I' '>8H' '>2H' '>H', or one-byte
+    fields in native order: 'B' '4B'"""
+    if not (isinstance(node, ast.Constant) and isinstance(node.value, str)):
+        bad(node, "struct format that is no string literal")
+    m = re.fullmatch(r"(>?)((?:\d*[BHI])+)", node.value)
+    if not m:
+        bad(node, "struct format %r" % node.value)
+    sizes = []
+    for cnt, code in re.findall(r"(\d*)([BHI])", m.group(2)):
+        if not m.group(1) and code != "B":
+            bad(node, "struct format %r: multi-byte field in native byte order" % node.value)
+        sizes += [{"B": 1, "H": 2, "I": 4}[code]] * (int(cnt) if cnt else 1)
+    if not sizes or len(sizes) > 32:
+        bad(node, "struct format %r" % node.value)
+    return sizes
+
+
+def srcc_nats(sizes):
+    return "[%s]" % "; ".join("%d%%nat" % n for n in sizes)
+
+
+def srcc_strlit(s, node=None):
+    if not all(32 <= ord(c) < 127 for c in s):
+        bad(node, "string literal with a non-printable character")
+    return "\"%s\"%%string" % s.replace('"', '""')
+
+
+def srcc_module_const(self, name, node):
+    """(type, term) of the module-level constant `name` of this unit's file: bound exactly once, at top level, by `name = <int
+    constant expression over literals and other such constants>` or `name = '<text>'`; emitted as a generated Definition
+    src_<prefix><name> with its VALUE (or, for width / version / max_int of ipv4.py / ipv6.py, the constant of Gen/pysrc_gen.v).
+    None if `name` is not such a constant."""
+    binds = [st for st in self.mod.tree.body for n in ([st] if isinstance(st, (ast.FunctionDef, ast.ClassDef)) else ast.walk(st))
+             if (isinstance(n, (ast.FunctionDef, ast.ClassDef)) and n.name == name)
+             or (isinstance(n, ast.Name) and n.id == name and isinstance(n.ctx, ast.Store))
+             or (isinstance(n, ast.alias) and (n.asname or n.name) == name)]
+    if len(binds) != 1 or not (isinstance(binds[0], ast.Assign) and len(binds[0].targets) == 1 and isinstance(binds[0].targets[0], ast.Name)):
+        return None
+    if any(isinstance(n, ast.Global) and name in n.names for n in ast.walk(self.mod.tree)):
+        return None
+    v, cn = binds[0].value, self.mangle(None, name)
+    if (self.prefix, name) in SRCC_SHARED_CONSTS:
+        return ("int", cn)
+    if isinstance(v, ast.Constant) and isinstance(v.value, str):
+        ty, term = "str", srcc_strlit(v.value, v)
+    else:
+        def ev(n, depth=0):
+            if const_int(n) is not None:
+                return const_int(n)
+            if isinstance(n, ast.Name) and depth < 8:
+                ds = [st for st in self.mod.tree.body for x in ([st] if isinstance(st, (ast.FunctionDef, ast.ClassDef)) else ast.walk(st))
+                      if (isinstance(x, (ast.FunctionDef, ast.ClassDef)) and x.name == n.id)
+                      or (isinstance(x, ast.Name) and x.id == n.id and isinstance(x.ctx, ast.Store))
+                      or (isinstance(x, ast.alias) and (x.asname or x.name) == n.id)]
+                if len(ds) == 1 and isinstance(ds[0], ast.Assign) and len(ds[0].targets) == 1 and isinstance(ds[0].targets[0], ast.Name) and not any(
+                        isinstance(g, ast.Global) and n.id in g.names for g in ast.walk(self.mod.tree)):
+                    return ev(ds[0].value, depth + 1)
+            if isinstance(n, ast.BinOp) and type(n.op) in (ast.Add, ast.Sub, ast.Mult, ast.FloorDiv, ast.Pow):
+                a, b = ev(n.left, depth), ev(n.right, depth)
+                if (isinstance(n.op, ast.FloorDiv) and b == 0) or (isinstance(n.op, ast.Pow) and not 0 <= b <= 4096):
+                    bad(n, "constant expression")
+                return {ast.Add: a + b, ast.Sub: a - b, ast.Mult: a * b, ast.FloorDiv: a // (b or 1), ast.Pow: a ** max(b, 0)}[type(n.op)]
+            bad(n, "constant expression %s" % type(n).__name__)
+        try:
+            val = ev(v)
+        except Untranslatable:
+            return None
+        ty, term = "int", "%d" % val if val >= 0 else "(%d)" % val
+    self.consts.setdefault(cn, "(* %s: %s, line %d: the value of this module constant *)\nDefinition %s : %s := %s.\n"
+                           % (self.fn, name, binds[0].lineno, cn, COQTY[ty], term))
+    return (ty, cn)
+
+
+Translator.srcc_module_const = srcc_module_const
+
+
+def srcc_core_const(self, name, node):
+    """(type, term) of an int constant imported by `from netaddr.core import NAME`: bound in netaddr/core.py exactly once, at top
+    level, by `[X =] NAME = <int literal>`; emitted as the generated constant src_<prefix><NAME> with its value"""
+    if self.mod.imports.get(name) != "netaddr.core." + name or [n for n in ast.walk(self.mod.tree) if isinstance(n, ast.Name)
+                                                                 and n.id == name and isinstance(n.ctx, ast.Store)]:
+        return None
+    fn = "netaddr/core.py"
+    tree = ast.parse(open(os.path.join(REPO, fn), encoding="utf-8").read())
+    binds = [st for st in tree.body for x in ([st] if isinstance(st, (ast.FunctionDef, ast.ClassDef)) else ast.walk(st))
+             if (isinstance(x, (ast.FunctionDef, ast.ClassDef)) and x.name == name)
+             or (isinstance(x, ast.Name) and x.id == name and isinstance(x.ctx, ast.Store))
+             or (isinstance(x, ast.alias) and (x.asname or x.name) == name)]
+    if (len(binds) != 1 or not isinstance(binds[0], ast.Assign) or not all(isinstance(t, ast.Name) for t in binds[0].targets)
+            or const_int(binds[0].value) is None or any(isinstance(g, ast.Global) and name in g.names for g in ast.walk(tree))):
+        bad(node, "%s is not bound in netaddr/core.py once, at top level, to an int literal" % name)
+    cn = self.mangle(None, name)
+    self.consts.setdefault(cn, "(* %s: %s, line %d (imported by %s): the value of this constant *)\nDefinition %s : Z := %d.\n"
+                           % (fn, name, binds[0].lineno, self.fn, cn, const_int(binds[0].value)))
+    return ("int", cn)
+
+
+Translator.srcc_core_const = srcc_core_const
+
+
+def srcc_class_const(self, name, node):
+    """a module-level class used as an IPv6 dialect: the pair (word_fmt, compact) of its class attributes (text literal, bool literal),
+    looked up through the bases; emitted as the generated constant src_<prefix><name>.  None if `name` is no such class."""
+    if name not in self.mod.classes or self.mod.imports.get(name):
+        return None
+    binds = [n for st in self.mod.tree.body for n in ([st] if isinstance(st, (ast.FunctionDef, ast.ClassDef)) else ast.walk(st))
+             if (isinstance(n, (ast.FunctionDef, ast.ClassDef)) and n.name == name)
+             or (isinstance(n, ast.Name) and n.id == name and isinstance(n.ctx, ast.Store))]
+    if len(binds) != 1:
+        return None
+
+    def attr(cls, a, depth=0):
+        c = self.mod.classes.get(cls)
+        if c is None or depth > 8:
+            return None
+        ds = [st for st in c.body for n in ast.walk(st) if isinstance(n, ast.Name) and n.id == a and isinstance(n.ctx, ast.Store)]
+        if len(ds) > 1 or (ds and not (isinstance(ds[0], ast.Assign) and len(ds[0].targets) == 1 and isinstance(ds[0].value, ast.Constant))):
+            bad(node, "class attribute %s.%s is not bound once, to a literal" % (cls, a))
+        if ds:
+            return ds[0].value.value
+        for b in c.bases:
+            r = attr(dotted(b), a, depth + 1)
+            if r is not None:
+                return r
+        return None
+    fmt, compact = attr(name, "word_fmt"), attr(name, "compact")
+    if not isinstance(fmt, str) or not isinstance(compact, bool):
+        return None
+    if any(isinstance(n, ast.Attribute) and n.attr in ("word_fmt", "compact") and not isinstance(n.ctx, ast.Load) for n in ast.walk(self.mod.tree)):
+        bad(node, "a dialect attribute is assigned somewhere in the module")
+    cn = self.mangle(None, name)
+    self.consts.setdefault(cn, "(* %s: class %s, line %d: (word_fmt, compact) of that dialect class *)\nDefinition %s : string * bool := (%s, %s).\n"
+                           % (self.fn, name, binds[0].lineno, cn, srcc_strlit(fmt, node), "true" if compact else "false"))
+    return ("cls6", cn)
+
+
+Translator.srcc_class_const = srcc_class_const
+
+
+def srcc_normalize(f):
+    """a copy of function f in which a `for` target that the loop body assigns again, or that several loops of f share, is renamed:
+    `for x in e: body` -> `for x__item in e: x = x__item; body` (the same behaviour as long as x is not read after the loop
+    before being assigned again -- such a read finds x unbound and is rejected; the translator's loop variable must not be rebound)"""
+    import copy
+    f = copy.deepcopy(f)
+    targets = [n.target.id for n in ast.walk(f) if isinstance(n, ast.For) and isinstance(n.target, ast.Name)]
+    seen = {}
+    for n in sorted((n for n in ast.walk(f) if isinstance(n, ast.For)), key=lambda n: (n.lineno, n.col_offset)):
+        if isinstance(n, ast.For) and isinstance(n.target, ast.Name) and (n.target.id in assigned_names(n.body) or targets.count(n.target.id) > 1):
+            x = n.target.id
+            seen[x] = seen.get(x, 0) + 1
+            item = x + "__item" + ("%d" % seen[x] if seen[x] > 1 else "")
+            n.target = ast.copy_location(ast.Name(id=item, ctx=ast.Store()), n.target)
+            first = ast.Assign(targets=[ast.Name(id=x, ctx=ast.Store())], value=ast.Name(id=item, ctx=ast.Load()))
+            n.body.insert(0, ast.fix_missing_locations(ast.copy_location(first, n.body[0])))
+
+    # `for x in range(..)` whose variable the body reads: the range as a list (the translator's own range loop has no variable)
+    for n in ast.walk(f):
+        if (isinstance(n, ast.For) and isinstance(n.target, ast.Name) and isinstance(n.iter, ast.Call) and isinstance(n.iter.func, ast.Name)
+                and n.iter.func.id == "range" and not n.iter.keywords
+                and any(isinstance(x, ast.Name) and x.id in (n.target.id, n.target.id.split("__item")[0]) and isinstance(x.ctx, ast.Load)
+                        for st in n.body for x in ast.walk(st))):
+            n.iter = ast.fix_missing_locations(ast.copy_location(ast.Call(func=ast.Name(id="list", ctx=ast.Load()), args=[n.iter], keywords=[]), n.iter))
+    # a comprehension variable (its own scope in Python 3) that is also bound elsewhere in f is renamed inside the comprehension
+    bound = [n.id for n in ast.walk(f) if isinstance(n, ast.Name) and isinstance(n.ctx, ast.Store)] + [a.arg for a in f.args.args]
+    k = 0
+    for comp in sorted((n for n in ast.walk(f) if isinstance(n, ast.ListComp)), key=lambda n: (n.lineno, n.col_offset)):
+        if len(comp.generators) == 1 and isinstance(comp.generators[0].target, ast.Name) and bound.count(comp.generators[0].target.id) > 1:
+            x = comp.generators[0].target.id
+            inner = [n for n in ast.walk(comp) if isinstance(n, ast.ListComp) and n is not comp]
+            if inner or any(isinstance(n, ast.Name) and n.id == x for n in ast.walk(comp.generators[0].iter)):
+                continue
+            k += 1
+            for n in ast.walk(comp):
+                if isinstance(n, ast.Name) and n.id == x:
+                    n.id = "%s__c%d" % (x, k)
+
+    def ispop(c):
+        return (isinstance(c, ast.Call) and isinstance(c.func, ast.Attribute) and c.func.attr == "pop" and isinstance(c.func.value, ast.Name)
+                and not c.args and not c.keywords)
+
+    def hoist_pop(stmts):
+        """`x = g(l.pop())` (the pop is the only argument of the outermost call, hence evaluated first) ->
+        `l__popped = l.pop(); x = g(l__popped)`"""
+        out = []
+        for st in stmts:
+            for field in ("body", "orelse", "finalbody"):
+                if isinstance(getattr(st, field, None), list) and not isinstance(st, (ast.FunctionDef, ast.ClassDef)):
+                    setattr(st, field, hoist_pop(getattr(st, field)))
+            for h in getattr(st, "handlers", []):
+                h.body = hoist_pop(h.body)
+            v = st.value if isinstance(st, ast.Assign) else None
+            if isinstance(v, ast.Call) and isinstance(v.func, ast.Name) and len(v.args) == 1 and not v.keywords and ispop(v.args[0]):
+                tmp = v.args[0].func.value.id + "__popped"
+                out.append(ast.fix_missing_locations(ast.copy_location(
+                    ast.Assign(targets=[ast.Name(id=tmp, ctx=ast.Store())], value=v.args[0]), st)))
+                v.args[0] = ast.copy_location(ast.Name(id=tmp, ctx=ast.Load()), v.args[0])
+            out.append(st)
+        return out
+    f.body = hoist_pop(f.body)
+    return f
+
+
+_module_function0 = Module.function
+
+
+def _srcc_module_function(self, name):
+    f = _module_function0(self, name)
+    if self.fn in [u[0] for u in SRCC_UNITS]:
+        cache = self.__dict__.setdefault("srcc_norm", {})
+        if name not in cache:
+            cache[name] = srcc_normalize(f)
+        return cache[name]
+    return f
+
+
+Module.function = _srcc_module_function
+
+
+# ---- expressions
+def srcc_pure(self, node, env, want=None):
+    """(type, term) of an expression that must not raise (it sits where nothing can be hoisted)"""
+    self.nohoist += 1
+    try:
+        r = self.ex(node, env)
+    finally:
+        self.nohoist -= 1
+    if want is not None and r[0] != want:
+        bad(node, "%s expression expected, got %s" % (want, show(r[0])))
+    return r
+
+
+def srcc_is_strlist(ty):
+    return is_list(ty) and ty[1].find().t == "str"
+
+
+def srcc_format(self, node, env):
+    """'<literal format>' % e with the conversions %d %x %.4x %s (%r only inside exception messages, which are not translated):
+    e an int / text for one conversion, a tuple display of as many items as conversions, or a sequence-valued expression
+    (struct.unpack result, tuple(l)) whose length is tested: TypeError when it is not the number of conversions"""
+    fmt = node.left.value
+    parts = re.split(r"(%\.4x|%d|%x|%s)", fmt)
+    specs = parts[1::2]
+    if "%" in "".join(parts[0::2]) or not specs:
+        bad(node, "format string %r" % fmt)
+    if isinstance(node.right, ast.Tuple):
+        items = [self.ex(x, env) for x in node.right.elts]
+        seq = None
+    else:
+        ty, t = self.ex(node.right, env)
+        if ty in ("int", "str"):
+            items, seq = [(ty, t)], None
+        elif is_list(ty) and ty[1].find().t in ("int", "str"):
+            names = [self.fresh() for _ in specs]
+            items, seq = [(ty[1].find().t, x) for x in names], (t, names)
+        else:
+            bad(node, "format argument of kind %s" % show(ty))
+    if len(items) != len(specs):
+        bad(node, "format string %r with %d arguments" % (fmt, len(items)))
+    pieces = []
+    for lit, spec, (ty, t) in zip(parts[0::2], specs, items):
+        if lit:
+            pieces.append(srcc_strlit(lit, node))
+        if spec == "%s":
+            if ty != "str":
+                bad(node, "%%s of %s" % show(ty))
+            pieces.append(t)
+        else:
+            if ty != "int":
+                bad(node, "%s of %s" % (spec, show(ty)))
+            pieces.append("(%s %s)" % ({"%d": "fmt_d", "%x": "fmt_x", "%.4x": "py_fmt_x4"}[spec], t))
+    if parts[-1]:
+        pieces.append(srcc_strlit(parts[-1], node))
+    term = pieces[-1]
+    for p in reversed(pieces[:-1]):
+        term = "(String.append %s %s)" % (p, term)
+    if seq is None:
+        return ("str", term)
+    return ("out", "str", "(match %s with [%s] => Ok %s | _ => Raise TypeError end)" % (seq[0], "; ".join(seq[1]), term))
+
+
+def srcc_bound(self, b, env):
+    """a slice bound: absent, an int, or a None-or-int local (None = absent, as in Python)"""
+    if b is None:
+        return "None"
+    ty, t = self.ex(b, env)
+    if ty == "optint":
+        return t
+    if ty != "int":
+        bad(b, "slice bound of kind %s" % show(ty))
+    return "(Some %s)" % t
+
+
+def srcc_optlocals(self):
+    """the locals of this function that hold None or an int: assigned the literal None somewhere, assigned something else
+    somewhere, and compared with None (`is None` / `is not None`) somewhere; not parameters"""
+    if "srcc_optlocals_" not in self.__dict__:
+        none, other, tested = set(), set(), set()
+        for n in ast.walk(self.f):
+            if isinstance(n, ast.Assign) and len(n.targets) == 1 and isinstance(n.targets[0], ast.Name):
+                (none if isinstance(n.value, ast.Constant) and n.value.value is None else other).add(n.targets[0].id)
+            if (isinstance(n, ast.Compare) and len(n.ops) == 1 and isinstance(n.ops[0], (ast.Is, ast.IsNot)) and isinstance(n.left, ast.Name)
+                    and isinstance(n.comparators[0], ast.Constant) and n.comparators[0].value is None):
+                tested.add(n.left.id)
+        self.srcc_optlocals_ = (none & other & tested) - {a.arg for a in self.f.args.args}
+    return self.srcc_optlocals_
+
+
+def srcc_rhs(self, node, env):
+    if isinstance(node, ast.Name) and node.id not in env and node.id not in self.attrs and not node.id.startswith("self"):
+        if node.id in SRCC_TABLE_TERM and node.id in UNIT_TABLES.get(self.tr.out, {}) and self.mod.toplevel(node.id):
+            return (parse_type(UNIT_TABLES[self.tr.out][node.id]), SRCC_TABLE_TERM[node.id])
+        return self.tr.srcc_module_const(node.id, node) or self.tr.srcc_core_const(node.id, node) or self.tr.srcc_class_const(node.id, node)
+    if isinstance(node, ast.Attribute) and isinstance(node.value, ast.Name) and env.get(node.value.id, ("",))[0] == "cls6" and node.attr in (
+            "word_fmt", "compact"):
+        t = env[node.value.id][1]                           # an IPv6 dialect class: the pair (word_fmt, compact)
+        return ("str", "(fst %s)" % t) if node.attr == "word_fmt" else ("bool", "(snd %s)" % t)
+    if isinstance(node, ast.BinOp) and isinstance(node.op, ast.Mod) and not isinstance(node.left, ast.Constant):
+        snap, pre0 = self.snapshot(), list(self.pre)
+        try:
+            ta, a = self.ex(node.left, env)
+        except Untranslatable:
+            ta = None
+        if ta == "str":                                     # <format held in a variable> % <int>: py_format1 reads the format text
+            return ("out", "str", "(py_format1 %s %s)" % (a, self.int_(node.right, env)))
+        self.restore(snap)
+        self.pre = pre0
+        return None
+    if isinstance(node, ast.Constant) and isinstance(node.value, str) and node.value == "":
+        return ("str", "\"\"%string")
+    if isinstance(node, ast.List) and not node.elts:
+        cell = Cell()                                       # []: its element type is written out once it is known (Fn.text)
+        cells = self.__dict__.setdefault("srcc_cells", [])
+        cells.append(cell)
+        return (("list", cell), "(@nil #CELL%d#)" % (len(cells) - 1))
+    if isinstance(node, ast.BinOp) and isinstance(node.op, ast.Mod) and isinstance(node.left, ast.Constant) and isinstance(node.left.value, str):
+        return srcc_format(self, node, env)
+    if isinstance(node, ast.Tuple) and node.elts and isinstance(node.ctx, ast.Load):
+        items = [self.ex(x, env) for x in node.elts]       # a tuple display of Coq values
+        if any(not is_value(ty) for ty, _ in items):
+            bad(node, "tuple component of kind %s" % [show(ty) for ty, _ in items if not is_value(ty)][0])
+        return (("tup", tuple(ty for ty, _ in items)), tuple_term([t for _, t in items]))
+    if (isinstance(node, ast.BinOp) and isinstance(node.op, ast.Mult) and isinstance(node.right, ast.List) and len(node.right.elts) == 1
+            and isinstance(node.right.elts[0], ast.Constant) and node.right.elts[0].value is None):
+        # n * [None]: a list of n slots that hold None or text
+        return (("list", Cell("optstr")), "(List.repeat (@None string) (Z.to_nat %s))" % self.int_(node.left, env))
+    if isinstance(node, ast.BinOp) and isinstance(node.op, (ast.Add, ast.Mult)):
+        snap, pre0 = self.snapshot(), list(self.pre)
+        (ta, a), (tb, b) = self.ex(node.left, env), self.ex(node.right, env)
+        if isinstance(node.op, ast.Add) and isinstance(ta, str) and isinstance(tb, str) and {ta, tb} == {"int", "optint"}:
+            h = self.fresh()                                # None + int is a TypeError
+            self.hoist(node, ("bind", h, "(match %s with Some h0 => Ok h0 | None => Raise TypeError end)" % (a if ta == "optint" else b)))
+            return ("int", "(%s + %s)" % ((h, b) if ta == "optint" else (a, h)))
+        if isinstance(node.op, ast.Add) and ta == tb and ta in ("str", "bytes"):
+            return (ta, "(String.append %s %s)" % (a, b) if ta == "str" else "(%s ++ %s)" % (a, b))
+        if isinstance(node.op, ast.Mult) and ta in ("str", "bytes") and tb == "int":
+            return (ta, "(%s %s %s)" % ("py_str_mul" if ta == "str" else "py_bytes_mul", a, b))
+        self.restore(snap)
+        self.pre = pre0
+        return None
+    if isinstance(node, ast.BoolOp) and len(node.values) == 2 and self.nohoist == 0:
+        # `a and b` / `a or b` where evaluating b can raise: b is evaluated only when a does not decide
+        snap, pre0 = self.snapshot(), list(self.pre)
+        try:
+            _rhs0(self, node, env)
+            simple = True
+        except Untranslatable:
+            simple = False
+        self.restore(snap)
+        self.pre = pre0
+        if not simple:
+            a = self.bool_(node.values[0], env)
+            saved, self.pre = self.pre, []
+            try:
+                b = self.bool_(node.values[1], env)
+            except Untranslatable:
+                self.pre = saved
+                self.restore(snap)
+                self.pre = pre0
+                return None
+            inner, self.pre = self.pre, saved
+            body = self.render(self.wrap(inner, ("ret", "bool", b, False)), "     ", True)
+            isand = isinstance(node.op, ast.And)
+            return ("out", "bool", "(if %s then\n     %s\n   else %s)" % (a, body if isand else "Ok true", "Ok false" if isand else "(%s)" % body))
+    if isinstance(node, ast.BoolOp) and isinstance(node.op, ast.Or) and len(node.values) == 2:
+        snap, pre0 = self.snapshot(), list(self.pre)
+        ta, a = self.ex(node.values[0], env)
+        if ta == "str":
+            return ("str", "(py_str_or %s %s)" % (a, srcc_pure(self, node.values[1], env, "str")[1]))
+        self.restore(snap)
+        self.pre = pre0
+        return None
+    if isinstance(node, ast.Compare) and len(node.ops) == 1 and isinstance(node.ops[0], (ast.In, ast.NotIn)):
+        snap, pre0 = self.snapshot(), list(self.pre)
+        try:
+            (ta, a), (tb, b) = self.ex(node.left, env), self.ex(node.comparators[0], env)
+        except Untranslatable:
+            ta = tb = None
+        if ta == "str" and tb == "str":         # text in text: substring test
+            lit = node.left.value if isinstance(node.left, ast.Constant) else None
+            t = ("(py_contains_dc %s)" % b if lit == "::" else "(contains_char %s %s)" % (srcc_charlit(lit, node), b)
+                 if isinstance(lit, str) and len(lit) == 1 and 32 <= ord(lit) < 127 and lit != '"' else "(py_str_in %s %s)" % (a, b))
+            return ("bool", t if isinstance(node.ops[0], ast.In) else "(negb %s)" % t)
+        self.restore(snap)
+        self.pre = pre0
+        return None
+    if isinstance(node, ast.Compare) and len(node.ops) == 1 and isinstance(node.ops[0], (ast.Is, ast.IsNot)) and isinstance(
+            node.comparators[0], ast.Constant) and node.comparators[0].value is None and isinstance(node.left, ast.Name):
+        ty, t = env.get(node.left.id, (None, None))
+        if ty in ("optint", "optstr"):
+            some = isinstance(node.ops[0], ast.IsNot)
+            return ("bool", "(match %s with Some _ => %s | None => %s end)" % (t, "true" if some else "false", "false" if some else "true"))
+        return None
+    if isinstance(node, ast.Subscript):
+        return srcc_subscript(self, node, env)
+    if isinstance(node, ast.Call):
+        return srcc_call(self, node, env)
+    if isinstance(node, ast.ListComp):
+        return srcc_listcomp(self, node, env)
+    return None
+
+
+def srcc_subscript(self, node, env):
+    sl = node.slice
+    if (isinstance(node.value, ast.Call) and dotted(node.value.func) == "globals" and not node.value.args and not node.value.keywords
+            and "globals" not in env and not self.mod.toplevel("globals") and isinstance(sl, ast.Constant) and isinstance(sl.value, str)):
+        r = self.tr.srcc_module_const(sl.value, node)       # globals()['name']: the module constant, also when a local shadows it
+        if r is None:
+            bad(node, "globals()[%r] is not a module constant the translator reads" % sl.value)
+        return r
+    snap, pre0 = self.snapshot(), list(self.pre)
+    try:
+        ty, t = self.ex(node.value, env)
+    except Untranslatable:
+        self.restore(snap)
+        self.pre = pre0
+        return None
+    if isinstance(sl, ast.Slice):
+        if sl.step is not None:
+            return None
+        if ty == "str" and sl.upper is None and const_int(sl.lower) is not None and const_int(sl.lower) >= 0:
+            self.restore(snap)
+            self.pre = pre0
+            return None                                     # s[k:] with a literal k >= 0: py_str_from, as before
+        if ty == "str":
+            return ("str", "(py_str_slice %s %s %s)" % (srcc_bound(self, sl.lower, env), srcc_bound(self, sl.upper, env), t))
+        if ty == "bytes" or is_list(ty):
+            return (ty, "(py_slice %s %s %s)" % (srcc_bound(self, sl.lower, env), srcc_bound(self, sl.upper, env), t))
+        self.restore(snap)
+        self.pre = pre0
+        return None
+    if is_list(ty) and is_value(ty[1].find().t or "?"):
+        k = const_int(sl)
+        if k is not None and k >= 0:
+            return ("out", ty[1].find().t, "(py_seq_item %d%%nat %s)" % (k, t))
+        return ("out", ty[1].find().t, "(py_list_item %s %s)" % (t, srcc_pure(self, sl, env, "int")[1]))
+    if ty == "str":
+        i = srcc_pure(self, sl, env, "int")[1]              # s[i]: the one-character string, IndexError outside
+        return ("out", "str", "(py_list_item (py_list_of_str %s) %s)" % (t, i))
+    self.restore(snap)
+    self.pre = pre0
+    return None
+
+
+def srcc_lib(self, f, names, module, env):
+    """is call target f the library function module.<one of names>: `_alias.name` for `import module as _alias`, or a name bound
+    by `from module import name [as alias]` (not shadowed by a local)?  -> the function's name, else None"""
+    if isinstance(f, ast.Attribute) and isinstance(f.value, ast.Name) and f.attr in names and f.value.id not in env:
+        imps = [a for n in self.mod.tree.body if isinstance(n, ast.Import) for a in n.names if (a.asname or a.name) == f.value.id]
+        if len(imps) == 1 and imps[0].name == module and sum(self.mod.toplevel(f.value.id) for _ in [0]) and not any(
+                isinstance(n, ast.Name) and n.id == f.value.id and isinstance(n.ctx, ast.Store) for n in ast.walk(self.mod.tree)):
+            return f.attr
+    if isinstance(f, ast.Name) and f.id not in env and self.mod.imports.get(f.id, "").rpartition(".")[0] == module:
+        real = self.mod.imports[f.id].rpartition(".")[2]
+        binds = [n for n in ast.walk(self.mod.tree) if (isinstance(n, ast.Name) and n.id == f.id and isinstance(n.ctx, ast.Store))
+                 or (isinstance(n, (ast.FunctionDef, ast.ClassDef)) and n.name == f.id)]
+        if real in names and not binds:
+            return real
+    return None
+
+
+def srcc_args(self, node, env, elem="int"):
+    """the positional arguments of a call as one list term: plain arguments, or one `*l` argument for a list l"""
+    if node.keywords:
+        bad(node, "keyword arguments")
+    if len(node.args) == 1 and isinstance(node.args[0], ast.Starred):
+        ty, t = self.ex(node.args[0].value, env)
+        if not (is_list(ty) and ty[1].find().t == elem):
+            bad(node, "*argument of kind %s" % show(ty))
+        return t
+    if any(isinstance(a, ast.Starred) for a in node.args):
+        bad(node, "mixed positional and * arguments")
+    items = [self.ex(a, env) for a in node.args]
+    if any(ty != elem for ty, _ in items):
+        bad(node, "argument of kind %s" % [show(ty) for ty, _ in items if ty != elem][0])
+    return "[%s]" % "; ".join(t for _, t in items)
+
+
+def srcc_callfn(self, node, name, env):
+    """call of a translated module-level function: omitted trailing parameters take the callee's (constant) defaults; an int /
+    text handed to a parameter declared optint / optstr is wrapped in Some, None is None"""
+    t, real = self.tr.owner_of(name)
+    d = t.get(None, real, node)
+    if node.keywords or any(isinstance(a, ast.Starred) for a in node.args) or len(node.args) > len(d.params):
+        bad(node, "unsupported argument list for %s" % d.cname)
+    dflts = [None] * (len(d.params) - len(d.f.args.defaults)) + list(d.f.args.defaults)
+    args = []
+    for i, (_, pty) in enumerate(d.params):
+        a = node.args[i] if i < len(node.args) else dflts[i]
+        if a is None:
+            bad(node, "missing argument %d of %s" % (i + 1, d.cname))
+        if isinstance(a, ast.Constant) and a.value is None:
+            if pty not in ("optint", "optstr", "optdialect", "optcls6"):
+                bad(node, "None for a parameter of %s declared %s" % (d.cname, show(pty)))
+            args.append((pty, "None"))
+            continue
+        ty, term = self.ex(a, env) if i < len(node.args) else self.ex(a, {k: v for k, v in env.items() if k.startswith("@")})
+        if (pty, ty) in (("optint", "int"), ("optstr", "str"), ("optcls6", "cls6")):
+            ty, term = pty, "(Some %s)" % term
+        args.append((ty, term))
+    if FILES.index(d.file) > FILES.index(self.file):
+        bad(node, "%s lives in %s, which comes after %s" % (d.cname, d.file, self.file))
+    self.deps.add((None, name))
+    self.depfns.append(d)
+    for (ty, _), (_, pty) in zip(args, d.params):
+        unify(node, ty, pty, "argument of %s" % d.cname)
+    if d.optional or d.mutating:
+        bad(node, "use of %s, which may return None or assigns state" % d.cname)
+    if d.__dict__.get("srcc_be"):
+        self.srcc_be = True
+    term = "(%s)" % " ".join([d.cname] + (["be"] if d.__dict__.get("srcc_be") else []) + [x for _, x in args])
+    return ("out", d.kind, term) if d.outcome else (d.kind, term)
+
+
+def srcc_import_only(self, name, real, modules):
+    """is every binding of `name` in this module an import of `real` from one of `modules` (at any depth: the imports sit under
+    `if` / `try`), and is there at least one?"""
+    binds = [n for n in ast.walk(self.mod.tree) if (isinstance(n, (ast.FunctionDef, ast.ClassDef)) and n.name == name)
+             or (isinstance(n, ast.Name) and n.id == name and isinstance(n.ctx, ast.Store)) or (isinstance(n, ast.arg) and n.arg == name)]
+    imps = [(st.module, a) for st in ast.walk(self.mod.tree) if isinstance(st, ast.ImportFrom) for a in st.names if (a.asname or a.name) == name]
+    other = [a for st in ast.walk(self.mod.tree) if isinstance(st, ast.Import) for a in st.names if (a.asname or a.name.split(".")[0]) == name]
+    return bool(imps) and not binds and not other and all(m in modules and a.name == real for m, a in imps)
+
+
+def srcc_socket_call(self, node, env):
+    """_inet_aton(s) / _inet_pton(AF_INET | AF_INET6, s) / _inet_ntop(AF_INET6, p): the module binds these names at import time
+    to the functions of `socket` (platform) or of netaddr.fbsocket (fallback).  Which of the two is a parameter of the model:
+    the generated definition takes the back-end `be` and the call becomes the prelude symbol for that function and family
+    (SrcPreludeText: the named oracle of Model/IpText.v for Platform, the hand model of Model/FbSocket.v for Fallback)."""
+    f = node.func.id
+    real, fams = SRCC_SOCKET[f]
+    if not srcc_import_only(self, f, real, SRCC_SOCKET_MODULES) or node.keywords:
+        bad(node, "%s is not bound only by imports of %s from %s" % (f, real, " / ".join(SRCC_SOCKET_MODULES)))
+    args = list(node.args)
+    fam = None
+    if None not in fams:
+        if not (args and isinstance(args[0], ast.Name) and args[0].id in fams and args[0].id not in env
+                and srcc_import_only(self, args[0].id, args[0].id, SRCC_SOCKET_MODULES)):
+            bad(node, "%s with a first argument other than %s" % (f, " / ".join(fams)))
+        fam, args = args[0].id, args[1:]
+    sym, takes_be = fams[fam]
+    if len(args) != 1:
+        bad(node, "%s argument list" % f)
+    ty, t = self.ex(args[0], env)
+    want = "bytes" if real == "inet_ntop" else "str"
+    if ty != want:
+        bad(node, "%s of %s" % (f, show(ty)))
+    if takes_be:
+        self.srcc_be = True
+    return ("out", "str" if real == "inet_ntop" else "bytes", "(%s%s %s)" % (sym, " be" if takes_be else "", t))
+
+
+def srcc_call(self, node, env):
+    f = node.func
+    lib = srcc_lib(self, f, ("pack", "unpack"), "struct", env)
+    if lib == "pack":
+        if not node.args:
+            bad(node, "struct.pack without a format")
+        sizes = srcc_struct_sizes(node.args[0])
+        rest = ast.copy_location(ast.Call(func=f, args=node.args[1:], keywords=node.keywords), node)
+        return ("out", "bytes", "(py_struct_pack %s %s)" % (srcc_nats(sizes), srcc_args(self, rest, env)))
+    if lib == "unpack":
+        if len(node.args) != 2 or node.keywords:
+            bad(node, "struct.unpack argument list")
+        sizes = srcc_struct_sizes(node.args[0])
+        ty, t = self.ex(node.args[1], env)
+        if ty != "bytes":
+            bad(node, "struct.unpack of %s" % show(ty))
+        return ("out", ("list", Cell("int")), "(py_struct_unpack %s %s)" % (srcc_nats(sizes), t))
+    if isinstance(f, ast.Name) and f.id in SRCC_SOCKET and f.id not in env:
+        return srcc_socket_call(self, node, env)
+    if (isinstance(f, ast.Name) and f.id == "_is_str" and f.id not in env and len(node.args) == 1 and not node.keywords
+            and isinstance(node.args[0], ast.Name) and env.get(node.args[0].id, ("",))[0] in ("str", "bytes", "int")
+            and self.mod.imports.get("_is_str") == "netaddr.compat._is_str" and compat_lambda_isinstance("_is_str")):
+        return ("bool", "false" if env[node.args[0].id][0] == "int" else "true")      # compat: isinstance(x, (str, bytes))
+    if isinstance(f, ast.Name) and f.id not in env and self.tr.owner_of(f.id) is not None:
+        return srcc_callfn(self, node, f.id, env)
+    isrange = lambda c: (isinstance(c, ast.Call) and isinstance(c.func, ast.Name) and not c.keywords and 1 <= len(c.args) <= 3 and (
+        (c.func.id == "range" and "range" not in env and not self.mod.toplevel("range"))
+        or (c.func.id == "_range" and "_range" not in env and self.mod.imports.get("_range") == "netaddr.compat._range")))
+    if isrange(node) and node.func.id == "_range" or (self.builtin_call(node, "list", env, 1) and isrange(node.args[0]) and node.args[0].func.id == "range"):
+        # list(range(a, b, c)) / compat._range(a, b, c) (= list(range(..))): the ints a, a + c, .. before b; the step is a literal != 0
+        c = node if node.func.id == "_range" else node.args[0]
+        xs = [self.int_(a, env) for a in c.args]
+        step = const_int(c.args[2]) if len(c.args) == 3 else 1
+        if not step:
+            bad(node, "range() with a step that is no non-zero literal")
+        a, b = (xs[0], xs[1]) if len(xs) >= 2 else ("0", xs[0])
+        return (("list", Cell("int")), "(py_range %s %s %s)" % (a, b, "(%d)" % step if step < 0 else "%d" % step))
+    if self.builtin_call(node, "list", env, 1):
+        snap, pre0 = self.snapshot(), list(self.pre)
+        ty, t = self.ex(node.args[0], env)
+        if is_list(ty):
+            return (ty, t)                                  # list(<tuple or list>): a new list with the same items
+        if ty == "str":
+            return (("list", Cell("str")), "(py_list_of_str %s)" % t)
+        self.restore(snap)
+        self.pre = pre0
+        return None
+    if self.builtin_call(node, "len", env, 1):
+        snap, pre0 = self.snapshot(), list(self.pre)
+        ty, t = self.ex(node.args[0], env)
+        if ty == "bytes":
+            return ("int", "(Z.of_nat (List.length %s))" % t)
+        self.restore(snap)
+        self.pre = pre0
+        return None
+    if self.builtin_call(node, "int", env, 1) or (self.builtin_call(node, "int", env, 2) and const_int(node.args[1]) in (10, 16)):
+        snap, pre0 = self.snapshot(), list(self.pre)
+        ty, t = self.ex(node.args[0], env)
+        if ty == "str":
+            return ("out", "int", "(py_int_base_o %d %s)" % (const_int(node.args[1]) if len(node.args) == 2 else 10, t))
+        self.restore(snap)
+        self.pre = pre0
+        return None
+    if (isinstance(f, ast.Attribute) and f.attr == "encode" and not node.args and not node.keywords and isinstance(f.value, ast.Constant)
+            and isinstance(f.value.value, str) and all(ord(c) < 128 for c in f.value.value)):
+        return ("bytes", "[%s]" % "; ".join("%d" % ord(c) for c in f.value.value))      # '<ASCII literal>'.encode(): its byte values
+    if isinstance(f, ast.Attribute) and f.attr in ("join", "split", "encode") and not node.keywords and not (
+            isinstance(f.value, ast.Name) and f.value.id not in env and self.tr.srcc_module_const(f.value.id, node) is None):
+        ty, t = self.ex(f.value, env)
+        if ty != "str":
+            bad(node, "%s() on %s" % (f.attr, show(ty)))
+        if f.attr == "encode" and not node.args and isinstance(f.value, ast.Constant):
+            return ("bytes", "(py_encode %s)" % t)          # '<printable ASCII literal>'.encode(): its bytes
+        if f.attr == "join" and len(node.args) == 1:
+            aty, a = self.ex(node.args[0], env)
+            if is_list(aty) and aty[1].find().t == "optstr":
+                return ("out", "str", "(py_join_opt %s %s)" % (t, a))      # TypeError if an item is None
+            if not srcc_is_strlist(aty):
+                bad(node, "join() of %s" % show(aty))
+            return ("str", "(join %s %s)" % (t, a))
+        if f.attr == "split" and len(node.args) == 1:
+            sep = node.args[0]
+            if not (isinstance(sep, ast.Constant) and isinstance(sep.value, str) and sep.value):
+                bad(node, "split() by something other than a non-empty text literal")
+            if len(sep.value) == 1:
+                return (("list", Cell("str")), "(split %s %s)" % (srcc_charlit(sep.value, node), t))
+            if sep.value == "::":
+                return (("list", Cell("str")), "(py_split_dc %s)" % t)
+            return (("list", Cell("str")), "(py_split %s %s)" % (srcc_strlit(sep.value, node), t))
+        bad(node, "%s() with an unsupported argument list" % f.attr)
+    if isinstance(f, ast.Name) and f.id == "_bytes_join" and f.id not in env and self.mod.imports.get(f.id) == "netaddr.compat._bytes_join" \
+            and len(node.args) == 1 and not node.keywords:
+        ty, t = self.ex(node.args[0], env)                  # compat: _bytes_join = bytes().join
+        if not (is_list(ty) and ty[1].find().t == "bytes"):
+            bad(node, "_bytes_join of %s" % show(ty))
+        return ("bytes", "(py_bytes_join %s)" % t)
+    return None
+
+
+def srcc_charlit(c, node=None):
+    if not (32 <= ord(c) < 127) or c == '"':
+        bad(node, "character literal %r" % c)
+    return "\"%s\"%%char" % c
+
+
+def srcc_listcomp(self, node, env):
+    """[e for x in xs] (one generator, no condition, fresh x) -> map (fun x => e) xs, or py_map_o when e can raise (left to right,
+    the first exception wins); xs a list, or text (its characters as one-character strings)"""
+    g = node.generators
+    if not (len(g) == 1 and not g[0].ifs and not g[0].is_async and isinstance(g[0].target, ast.Name) and g[0].target.id not in env):
+        return None
+    if self.builtin_call(g[0].iter, "range", env, 1):
+        n = self.int_(g[0].iter.args[0], env)               # [e for _ in range(n)] with e not reading the variable: n copies
+        if g[0].target.id in loaded_names([node.elt]):
+            bad(node, "comprehension over range() that reads its variable")
+        ety, e = srcc_pure(self, node.elt, env)
+        if not is_value(ety):
+            bad(node, "comprehension element of kind %s" % show(ety))
+        return (("list", Cell(ety)), "(List.repeat %s (Z.to_nat %s))" % (e, n))
+    ty, t = self.listexpr(g[0].iter, env)
+    if ty == "str":
+        ty, t = ("list", Cell("str")), "(py_list_of_str %s)" % t
+    elem = ty[1].find().t if is_list(ty) else None
+    if elem is None or not is_value(elem):
+        bad(node, "comprehension over %s" % show(ty))
+    cn, lenv = self.bind_local(g[0].target, g[0].target.id, elem, env, g[0].iter)
+    saved, self.pre, nh = self.pre, [], self.nohoist
+    self.nohoist = 0
+    try:
+        r = self.rhs(node.elt, lenv)
+    finally:
+        self.nohoist = nh
+    inner, self.pre = self.pre, saved
+    ety = r[1] if r[0] == "out" else r[0]
+    if not is_value(ety):
+        bad(node, "comprehension element of kind %s" % show(ety))
+    if r[0] != "out" and not inner:
+        return (("list", Cell(ety)), "(map (fun %s => %s) %s)" % (cn, r[1], t))
+    body = self.render(self.wrap(inner, ("ret", ety, r[2] if r[0] == "out" else r[1], r[0] == "out")), "      ", True)
+    return ("out", ("list", Cell(ety)), "(py_map_o (fun %s =>\n      %s) %s)" % (cn, body, t))
+
+
+_rhs0 = Fn.rhs
+
+
+def _srcc_rhs(self, node, env):
+    if srcc_on(self):
+        r = srcc_rhs(self, node, env)
+        if r is not None:
+            self.size += 1
+            return r
+    return _rhs0(self, node, env)
+
+
+Fn.rhs = _srcc_rhs
+_bool0 = Fn.bool_
+
+
+def _srcc_bool(self, node, env):
+    """truth value of an int (`while word:`) and of text"""
+    if srcc_on(self) and not isinstance(node, (ast.Compare, ast.BoolOp)) and not (isinstance(node, ast.UnaryOp) and isinstance(node.op, ast.Not)):
+        snap, pre0 = self.snapshot(), list(self.pre)
+        try:
+            ty, t = self.ex(node, env)
+        except Untranslatable:
+            ty = None
+        if ty == "int":
+            return "(negb (%s =? 0))" % t
+        if ty == "str":
+            return "(negb (String.eqb %s \"\"%%string))" % t
+        self.restore(snap)
+        self.pre = pre0
+    return _bool0(self, node, env)
+
+
+Fn.bool_ = _srcc_bool
+
+
+# ---- statements
+def srcc_try_except(self, s, rest, env, k, after):
+    """Fn.try_except with loops allowed inside the protected body (no return / break / continue / nested try in it): the loops
+    become Fixpoints as usual and their calls sit inside py_except"""
+    h = s.handlers[0]
+    if (s.orelse or s.finalbody or not isinstance(h.type, ast.Name) or h.type.id not in EXN or h.type.id in env
+            or self.mod.toplevel(h.type.id) and h.type.id not in self.mod.imports or env["@mut"]):
+        bad(s, "try statement other than `try: <assignments, if, raise, loops> / except E1: raise E2(..)`")
+    if h.name and any(isinstance(n, ast.Name) and n.id == h.name for st in rest + after for n in ast.walk(st)):
+        bad(s, "exception variable %s used after the handler" % h.name)
+    e2 = self.block(h.body, {**env, "@break": None}, None, [])[1]
+    names, ends = assigned_names(s.body), []
+
+    def end(e):
+        ends.append(e)
+        return ("jret", e)
+    body = self.block(s.body, env, end, rest + after)
+    exported = [x for x in names if ends and all(x in e and is_value(e[x][0]) for e in ends)]
+    for key, val in env.items():
+        if not key.startswith("@") and key not in exported and any(e.get(key) != val for e in ends):
+            if key in loaded_names(rest + after):
+                bad(s, "%s is rebound inside try to something that is no Coq value and read afterwards" % key)
+    env = dict(env)
+    for x in names:
+        env.pop(x, None)
+    cns = []
+    for x in exported:
+        for e in ends[1:]:
+            unify(s, e[x][0], ends[0][x][0], "ends of the try body")
+        cn = self.coqname(s, x)
+        cns.append(cn)
+        env[x] = (ends[0][x][0], cn)
+    env["@taint"] = frozenset().union(env["@taint"], *[e["@taint"] for e in ends]) - (set(names) - set(exported))
+
+    def close(ir):
+        if ir[0] == "jret" and isinstance(ir[1], dict):
+            return ("jret", tuple_term([ir[1][x][1] for x in exported]))
+        return tuple(close(x) if isinstance(x, tuple) and x and isinstance(x[0], str) else
+                     [(kd, ns, close(sub)) for kd, ns, sub in x] if isinstance(x, list) else x for x in ir)
+    return ("try", h.type.id, e2, pattern(cns), close(body), self.block(rest, env, k, after))
+
+
+def srcc_try_all(self, s, rest, env, k, after):
+    """try: body / except Exception: handler (or a bare `except:`), outside loops, no else / finally.  EVERY Python exception
+    leaving the body reaches the handler (py_except_all / py_except_value: all exception classes of the model; the modelling
+    devices OutOfFuel and Unsupported pass through).  Three shapes:
+      (A) the handler is `raise E(..)`, every path of the body returns or raises  -> py_except_all E (body), the function's result;
+      (B) the handler is `raise E(..)`, the body only assigns                       -> do <assigned> <- py_except_all E (body); rest;
+      (C) the handler is `return <literal>` or assigns literals to names bound before the try, the body neither returns nor
+          assigns a name that is read afterwards (other than those the handler assigns)
+                                                                                   -> py_except_value <handler's values> (body)."""
+    h = s.handlers[0]
+    if s.orelse or s.finalbody or env["@mut"] or env["@break"] is not None or any(
+            isinstance(n, (ast.Break, ast.Continue, ast.Try, ast.While, ast.For)) for st in s.body for n in ast.walk(st)):
+        bad(s, "try / except Exception with else / finally / loops / nested try, or inside a loop")
+    if h.name and any(isinstance(n, ast.Name) and n.id == h.name for st in h.body + rest + after for n in ast.walk(st)):
+        bad(s, "exception variable %s is used" % h.name)
+    has_ret = any(isinstance(n, ast.Return) for st in s.body for n in ast.walk(st))
+    if len(h.body) == 1 and isinstance(h.body[0], ast.Raise):
+        e2 = self.block(h.body, {**env, "@break": None}, None, [])[1]
+        if has_ret:                                                                                   # (A)
+            def falls(e):
+                bad(s, "try body that returns on some paths and falls off its end on others")
+            return ("xtry", "py_except_all %s" % e2, None, self.block(s.body, env, falls, []), None)
+        names, ends = assigned_names(s.body), []                                                      # (B)
+
+        def end(e):
+            ends.append(e)
+            return ("jret", e)
+        body = self.block(s.body, env, end, rest + after)
+        exported = [x for x in names if ends and all(x in e and is_value(e[x][0]) for e in ends) and x in loaded_names(rest + after)]
+        for x in names:
+            if x not in exported and x in loaded_names(rest + after):
+                bad(s, "%s is assigned in the try body on some paths only (or to no Coq value) and read afterwards" % x)
+        env = dict(env)
+        for x in names:
+            env.pop(x, None)
+        cns = []
+        for x in exported:
+            for e in ends[1:]:
+                unify(s, e[x][0], ends[0][x][0], "ends of the try body")
+            cn = self.coqname(s, x)
+            cns.append(cn)
+            env[x] = (ends[0][x][0], cn)
+        env["@taint"] = frozenset().union(env["@taint"], *[e["@taint"] for e in ends]) - (set(names) - set(exported))
+        return ("xtry", "py_except_all %s" % e2, pattern(cns), srcc_close(body, exported), self.block(rest, env, k, after))
+    if has_ret:
+        bad(s, "try body with return and a handler that does not raise")
+    lit = lambda v: isinstance(v, ast.Constant) and (isinstance(v.value, bool) or v.value is None or isinstance(v.value, (int, str)))
+    names = assigned_names(s.body)
+    if len(h.body) == 1 and isinstance(h.body[0], ast.Return) and h.body[0].value is not None and lit(h.body[0].value):   # (C), return
+        for x in names:
+            if x in loaded_names(rest + after):
+                bad(s, "%s is assigned in the try body and read afterwards" % x)
+        ty, t = self.ex(h.body[0].value, env)
+        self.lrets.append(ty)
+        body = self.block(s.body, env, lambda e: ("ret", "@loop", "(inr tt)", False), rest + after)
+        env = {key: val for key, val in env.items() if key not in names}
+        hn = self.fresh()
+        return ("xtry", "py_except_value (inl %s)" % t, hn, body, ("lmatch", hn, self.fresh(), "_", self.block(rest, env, k, after)))
+    if h.body and all(isinstance(a, ast.Assign) and len(a.targets) == 1 and isinstance(a.targets[0], ast.Name) and lit(a.value) for a in h.body):
+        hnames = [a.targets[0].id for a in h.body]                                                   # (C), assignments
+        if len(set(hnames)) != len(hnames) or any(x not in env or not is_value(env[x][0]) for x in hnames):
+            bad(s, "except handler assigns a name twice, or a name that is not bound (to a Coq value) before the try")
+        for x in names:
+            if x not in hnames and x in loaded_names(rest + after):
+                bad(s, "%s is assigned in the try body and read afterwards" % x)
+        hvals = []
+        for a in h.body:
+            ty, t = self.ex(a.value, env)
+            unify(a, ty, env[a.targets[0].id][0], "value assigned by the handler")
+            hvals.append(t)
+        ends = []
+
+        def end2(e):
+            ends.append(e)
+            return ("jret", e)
+        body = self.block(s.body, env, end2, rest + after)
+        for e in ends:
+            for x in hnames:
+                if x not in e:
+                    bad(s, "%s may be unbound at the end of the try body" % x)
+                unify(s, e[x][0], env[x][0], "value of %s at the end of the try body" % x)
+        env2 = {key: val for key, val in env.items() if key not in names}
+        cns = []
+        for x in hnames:
+            cn = self.coqname(s, x)
+            cns.append(cn)
+            env2[x] = (env[x][0], cn)
+        return ("xtry", "py_except_value %s" % tuple_term(hvals), pattern(cns), srcc_close(body, hnames), self.block(rest, env2, k, after))
+    bad(s, "except handler other than `raise E(..)`, `return <literal>` or assignments of literals")
+
+
+def srcc_close(ir, exported):
+    """the pending ends of a protected body become tuples of the exported variables"""
+    if ir[0] == "jret" and isinstance(ir[1], dict):
+        return ("jret", tuple_term([ir[1][x][1] for x in exported]))
+    return tuple(srcc_close(x, exported) if isinstance(x, tuple) and x and isinstance(x[0], str) else
+                 [(kd, ns, srcc_close(sub, exported)) for kd, ns, sub in x] if isinstance(x, list) else x for x in ir)
+
+
+def srcc_stmt(self, s, rest, env, k, after):
+    go = lambda e: self.block(rest, e, k, after)
+    if isinstance(s, ast.Raise) and isinstance(s.exc, ast.Name) and env.get(s.exc.id, ("",))[0] == "cls" and env[s.exc.id][1] in EXN and not s.cause:
+        if env["@mut"]:
+            bad(s, "raise after a state assignment")
+        return ("raise", env[s.exc.id][1])                  # raise <name bound to an exception object made before>
+    if (isinstance(s, ast.Assign) and len(s.targets) == 1 and isinstance(s.targets[0], ast.Name) and isinstance(s.value, ast.Call)
+            and isinstance(s.value.func, ast.Name) and s.value.func.id in EXN and s.value.func.id not in env
+            and (not self.mod.toplevel(s.value.func.id) or s.value.func.id in self.mod.imports)):
+        x = s.targets[0].id                                 # x = ValueError('..' % ..): the exception object; only its class is kept
+        if x in ("self", "_ipv4", "_ipv6") or any(isinstance(n, ast.Call) and not (isinstance(n.func, ast.Name) and n.func.id == "type")
+                                                  for a in s.value.args for n in ast.walk(a)) or s.value.keywords:
+            bad(s, "exception object built from something other than a message")
+        self.coqname(s.targets[0], x)
+        env = dict(env)
+        env[x] = ("cls", s.value.func.id)
+        return go(env)
+    if (isinstance(s, ast.Assign) and len(s.targets) == 1 and isinstance(s.targets[0], ast.Tuple) and 2 <= len(s.targets[0].elts) <= 4
+            and all(isinstance(x, ast.Name) and x.id != "_" for x in s.targets[0].elts)):
+        snap, pre0 = self.snapshot(), list(self.pre)
+        ty, t = self.ex(s.value, env)
+        elem = ty[1].find().t if is_list(ty) else None
+        if elem is not None and is_value(elem):
+            # a, b = <list>: ValueError unless the list has exactly that many items
+            pre, names = self.take_pre(), []
+            for x in s.targets[0].elts:
+                cn, env = self.bind_local(x, x.id, elem, env, s.value)
+                names.append(cn)
+            return self.wrap(pre, ("bind", pattern(names), "(match %s with [%s] => Ok %s | _ => Raise ValueError end)" % (
+                t, "; ".join(names), tuple_term(names)), go(env)))
+        self.restore(snap)
+        self.pre = pre0
+    if isinstance(s, ast.Try) and len(s.handlers) == 1 and (s.handlers[0].type is None or (
+            isinstance(s.handlers[0].type, ast.Name) and s.handlers[0].type.id == "Exception" and "Exception" not in env
+            and not self.mod.toplevel("Exception"))):
+        return srcc_try_all(self, s, rest, env, k, after)
+    if isinstance(s, ast.Expr) and isinstance(s.value, ast.Call) and isinstance(s.value.func, ast.Name) and s.value.func.id in SRCC_SOCKET:
+        r = self.rhs(s.value, env)                          # a socket call made for its exception only: the result is dropped
+        pre = self.take_pre()
+        return self.wrap(pre, ("bind", "_", r[2], go(env)))
+    if (isinstance(s, ast.If) and isinstance(s.test, ast.Call) and dotted(s.test.func) == "isinstance" and len(s.test.args) == 2
+            and not s.test.keywords and isinstance(s.test.args[0], ast.Name) and env.get(s.test.args[0].id, ("",))[0] == "str"
+            and dotted(s.test.args[1]) == "_str_type" and "_str_type" not in env
+            and self.mod.imports.get("_str_type") == "netaddr.compat._str_type" and compat_ok("_str_type")):
+        return self.block(s.body + rest, env, k, after)      # isinstance(<text>, _str_type): compat binds _str_type = str -- true
+    if (isinstance(s, ast.Try) and len(s.handlers) == 1 and len(s.handlers[0].body) == 1 and isinstance(s.handlers[0].body[0], ast.Raise)
+            and any(isinstance(n, (ast.For, ast.While)) for st in s.body for n in ast.walk(st))
+            and not any(isinstance(n, (ast.Return, ast.Break, ast.Continue, ast.Try)) for st in s.body for n in ast.walk(st))):
+        # try: <assignments, if, raise, loops without return / break / continue> / except E1: raise E2: as try_except; the loops
+        # are Fixpoints called inside the protected body
+        return srcc_try_except(self, s, rest, env, k, after)
+    if (isinstance(s, ast.Assign) and len(s.targets) == 1 and isinstance(s.targets[0], ast.Subscript) and isinstance(s.targets[0].value, ast.Name)
+            and is_list(env.get(s.targets[0].value.id, ("",))[0]) and env[s.targets[0].value.id][0][1].find().t == "optstr"
+            and not isinstance(s.targets[0].slice, ast.Slice)):
+        l = s.targets[0].value.id                           # l[i] = e: IndexError outside -len .. len-1
+        lty, lt = env[l]
+        i = self.int_(s.targets[0].slice, env)
+        ty, t = self.ex(s.value, env)
+        if ty != "str":
+            bad(s, "item assignment of a %s value" % show(ty))
+        pre = self.take_pre()
+        cn, env = self.bind_local(s, l, lty, env)
+        return self.wrap(pre, ("bind", cn, "(py_list_set %s %s (Some %s))" % (lt, i, t), go(env)))
+    if (isinstance(s, ast.Assign) and len(s.targets) == 1 and isinstance(s.targets[0], ast.Name)
+            and s.targets[0].id in srcc_optlocals(self)):
+        x = s.targets[0].id                                 # a local that holds None or an int: option Z
+        if isinstance(s.value, ast.Constant) and s.value.value is None:
+            term, pre = "None", []
+        else:
+            term = "(Some %s)" % self.int_(s.value, env)
+            pre = self.take_pre()
+        cn, env = self.bind_local(s.targets[0], x, "optint", env, s.value)
+        return self.wrap(pre, ("let", cn, term, go(env)))
+    if (isinstance(s, ast.Expr) and isinstance(s.value, ast.Call) and isinstance(s.value.func, ast.Attribute) and s.value.func.attr == "sort"
+            and isinstance(s.value.func.value, ast.Name) and is_list(env.get(s.value.func.value.id, ("",))[0]) and not s.value.args
+            and [k.arg for k in s.value.keywords] == ["key"] and isinstance(s.value.keywords[0].value, ast.Lambda)):
+        # l.sort(key=lambda x: e): stable, ascending; a None-or-int key raises TypeError as soon as two items are compared
+        l, lam = s.value.func.value.id, s.value.keywords[0].value
+        lty, lt = env[l]
+        elem = lty[1].find().t
+        if (elem is None or len(lam.args.args) != 1 or lam.args.defaults or lam.args.vararg or lam.args.kwarg or lam.args.kwonlyargs
+                or lam.args.posonlyargs or lam.args.args[0].arg in env):
+            bad(s, "sort() key other than lambda x: <expression> with a fresh x")
+        xcn, lenv = self.bind_local(lam, lam.args.args[0].arg, elem, env, s.value.func.value)
+        kty, kt = srcc_pure(self, lam.body, lenv)
+        if kty not in ("int", "optint"):
+            bad(s, "sort() key of kind %s" % show(kty))
+        cn, env = self.bind_local(s, l, lty, env)
+        if kty == "int":
+            return ("let", cn, "(py_sort_asc (fun %s => %s) %s)" % (xcn, kt, lt), go(env))
+        return ("bind", cn, "(py_sort_optkey (fun %s => %s) %s)" % (xcn, kt, lt), go(env))
+    if isinstance(s, ast.Expr) and isinstance(s.value, ast.Call) and isinstance(s.value.func, ast.Attribute) and isinstance(
+            s.value.func.value, ast.Name) and is_list(env.get(s.value.func.value.id, ("",))[0]) and not s.value.keywords:
+        v, l = s.value, s.value.func.value.id
+        lty, lt = env[l]
+        new = None
+        if v.func.attr == "reverse" and not v.args:
+            new = "(rev %s)" % lt
+        elif v.func.attr == "extend" and len(v.args) == 1:
+            ty, t = self.ex(v.args[0], env)
+            unify(s, ty, lty, "extended list")
+            new = "(%s ++ %s)" % (lt, t)
+        elif v.func.attr == "insert" and len(v.args) == 2 and const_int(v.args[0]) == 0:
+            ty, t = self.ex(v.args[1], env)
+            unify(s, ("list", Cell(ty)), lty, "inserted element")
+            new = "(py_insert0 %s %s)" % (t, lt)
+        if new is not None:
+            pre = self.take_pre()
+            cn, env = self.bind_local(s, l, lty, env)
+            return self.wrap(pre, ("let", cn, new, go(env)))
+    if isinstance(s, ast.If):
+        t, neg = s.test, False
+        if isinstance(t, ast.UnaryOp) and isinstance(t.op, ast.Not):
+            t, neg = t.operand, True
+        if (isinstance(t, ast.Call) and dotted(t.func) == "_is_str" and "_is_str" not in env and len(t.args) == 1 and not t.keywords
+                and isinstance(t.args[0], ast.Name) and env.get(t.args[0].id, ("",))[0] == "bytes"
+                and self.mod.imports.get("_is_str") == "netaddr.compat._is_str" and compat_lambda_isinstance("_is_str")):
+            # _is_str(x) for a packed byte string: compat tests isinstance(x, (str, bytes)) -- true
+            return self.block((s.orelse if neg else s.body) + rest, env, k, after)
+        t = s.test
+        if (isinstance(t, ast.Compare) and len(t.ops) == 1 and isinstance(t.ops[0], ast.Is) and isinstance(t.left, ast.Name)
+                and isinstance(t.comparators[0], ast.Constant) and t.comparators[0].value is None
+                and env.get(t.left.id, ("",))[0] in ("optint", "optstr", "optcls6") and t.left.id in [a.arg for a in self.f.args.args]):
+            # `if x is None: x = e` for a parameter declared optint / optstr / optcls6: from here on x is an int / text / dialect
+            x, a = t.left.id, s.body[0] if len(s.body) == 1 else None
+            if not (s.orelse == [] and isinstance(a, ast.Assign) and len(a.targets) == 1 and isinstance(a.targets[0], ast.Name) and a.targets[0].id == x):
+                bad(s, "`if %s is None:` followed by something other than `%s = <default>`" % (x, x))
+            old, base = env[x][1], {"optint": "int", "optstr": "str", "optcls6": "cls6"}[env[x][0]]
+            dflt = srcc_pure(self, a.value, env, base)[1]
+            cn, env = self.bind_local(a.targets[0], x, base, env, t)
+            return ("let", cn, "(py_opt_default %s %s)" % (old, dflt), go(env))
+    return None
+
+
+_block0 = Fn.block
+
+
+def _srcc_block(self, stmts, env, k, after):
+    if stmts and srcc_on(self):
+        r = srcc_stmt(self, stmts[0], list(stmts[1:]), env, k, after)
+        if r is not None:
+            return r
+    return _block0(self, stmts, env, k, after)
+
+
+Fn.block = _srcc_block
+_return0 = Fn.return_
+
+
+def _srcc_return(self, s, env):
+    """`return (a, b, c, d)` of ints in a unit whose callers read the result as a word sequence: the list [a; b; c; d]"""
+    v = s.value
+    if srcc_on(self) and isinstance(v, ast.Tuple) and v.elts and not (env["@break"] is not None and not env["@lret"]):
+        snap, pre0 = self.snapshot(), list(self.pre)
+        items = [self.ex(x, env) for x in v.elts]
+        if all(ty == "int" for ty, _ in items):
+            return self.wrap(self.take_pre(), self.leaf(env, ("list", Cell("int")), "[%s]" % "; ".join(t for _, t in items)))
+        self.restore(snap)
+        self.pre = pre0
+    return _return0(self, s, env)
+
+
+Fn.return_ = _srcc_return
+
+
+_listexpr0 = Fn.listexpr
+
+
+def _srcc_listexpr(self, node, env):
+    """`for c in s` / a comprehension over text s: its characters as one-character strings"""
+    r = _listexpr0(self, node, env)
+    if srcc_on(self) and r[0] == "str":
+        return (("list", Cell("str")), "(py_list_of_str %s)" % r[1])
+    return r
+
+
+Fn.listexpr = _srcc_listexpr
+
+
+_fn_text0 = Fn.text
+
+
+def _srcc_fn_text(self):
+    t = _fn_text0(self)
+    for i, cell in enumerate(self.__dict__.get("srcc_cells", [])):
+        e = cell.find().t
+        t = t.replace("#CELL%d#" % i, coqty(e, self.f) if e is not None else "unit")     # never used: any type does
+    return t
+
+
+Fn.text = _srcc_fn_text
+
+
+_children0 = Fn.children
+
+
+def _srcc_children(ir):
+    return [x for x in (ir[3], ir[4]) if x is not None] if ir[0] == "xtry" else _children0(ir)
+
+
+Fn.children = staticmethod(_srcc_children)
+_effects0 = Fn.effects
+
+
+def _srcc_effects(self, ir):
+    return ir[0] == "xtry" or _effects0(self, ir)
+
+
+Fn.effects = _srcc_effects
+_render0 = Fn.render
+
+
+def _srcc_render(self, ir, ind, oc, optional=False):
+    if ir[0] == "xtry":             # ("xtry", <handler symbol and its arguments>, pattern | None, body, rest | None)
+        body = self.render(ir[3], ind + "   ", True, False)
+        if ir[4] is None:
+            return "%s\n%s  (%s)" % (ir[1], ind, body)
+        return "do %s <- %s\n%s  (%s);\n%s%s" % (ir[2], ir[1], ind, body, ind, self.render(ir[4], ind, oc, optional))
+    return _render0(self, ir, ind, oc, optional)
+
+
+Fn.render = _srcc_render
+_fn_text1 = Fn.text
+
+
+def _srcc_fn_text_be(self):
+    """a definition that calls one of the socket functions bound at import time (or another such definition) takes the back-end
+    as its first parameter `be`"""
+    t = _fn_text1(self)
+    if self.__dict__.get("srcc_be"):
+        if any(re.search(r"\bbe\b", L.text(self).split(":=", 1)[1]) for L in self.loops):
+            bad(self.f, "a loop of %s uses the back-end" % self.name)
+        head = "Definition %s " % self.cname
+        if t.count(head) != 1:
+            bad(self.f, "cannot place the back-end parameter of %s" % self.cname)
+        t = t.replace(head, head + "(be : py_backend) ")
+    return t
+
+
+Fn.text = _srcc_fn_text_be
+
+
+_assigned_names0 = assigned_names
+
+
+def assigned_names(stmts):
+    """as before; in addition `l[i] = e` (item assignment, read by the SRCC units only) rebinds the list l"""
+    found = [(n.lineno, n.col_offset, n.value.id) for st in stmts for n in ast.walk(st)
+             if isinstance(n, ast.Subscript) and isinstance(n.ctx, ast.Store) and isinstance(n.value, ast.Name)]
+    if not found:
+        return _assigned_names0(stmts)
+    out = _assigned_names0(stmts)
+    for x in in_order(found):
+        if x not in out:
+            out.append(x)
     return out
